@@ -269,7 +269,9 @@ IndexSnapshot(e, from, xa, xi) ==
        IN  last' = Call("snapshot", e, from, <<xa, xi>>, r.ok, r.x, 0, r.a, r.i)
     /\ UNCHANGED <<defs, bx, ba, built, tables>>
 
-NextBuild == (\E d \in Universe : AddInstrument(d)) \/ Build
+AddInstrumentAny == \E d \in Universe : AddInstrument(d)
+
+NextBuild == AddInstrumentAny \/ Build
 
 \* one named action per entry point (the quantifiers are the environment's free choices)
 OrderRequestAny ==
